@@ -32,6 +32,7 @@ EVID_DIR = os.path.join(OUT, "evidence")
 REPLAY_DIR = os.path.join(OUT, "replays")
 CACHE_DIR = os.path.join(OUT, ".cache")
 MAX_RSS_GB_DEFAULT = 16
+CACHE_EPOCH = "2026-09-22a"
 NCPU = os.cpu_count() or 8
 
 # source file (relative to /repo/src) -> harness module file in /verif/kani
@@ -128,11 +129,14 @@ def obligation_key(o, rkey):
     (its module and the modules that one uses / its Verus unit), the runner, and the obligation record."""
     if o["engine"] == "kani":
         files = [os.path.join(KANI_DIR, m) for m in modules_closure([o["module"]])]
+        files += [f for f in (os.path.join(KANI_DIR, m[:-3] + ".extract.json") for m in modules_closure([o["module"]])) if os.path.exists(f)]
     else:
         files = [os.path.join(VERUS_DIR, f) for f in sorted(os.listdir(VERUS_DIR)) if f.startswith(o["unit"] + ".")]
-    files += walk(os.path.join(VERIF, "vlib"), (".py",))
+    # (the runner itself is not part of the key: bump CACHE_EPOCH when a change to it affects what a result means)
     h = hashlib.sha256()
-    h.update(rkey.encode()); h.update(sha256_files(files).encode()); h.update(json.dumps(o, sort_keys=True).encode())
+    h.update(CACHE_EPOCH.encode())
+    core = {k: o.get(k) for k in ("engine", "module", "unit", "harness", "cbmc_args", "unwindset", "expect_verified", "timeout_s")}
+    h.update(rkey.encode()); h.update(sha256_files(files).encode()); h.update(json.dumps(core, sort_keys=True).encode())
     return h.hexdigest()[:32]
 
 
@@ -171,7 +175,10 @@ class Scratch:
 
     def __init__(self, key, modules):
         self.modules = modules_closure(modules)
-        tag = hashlib.sha256((key + "|" + ",".join(self.modules)).encode()).hexdigest()[:16]
+        specs = [os.path.join(KANI_DIR, m[:-3] + ".extract.json") for m in self.modules]
+        self.extract_specs = [p for p in specs if os.path.exists(p)]
+        tag = hashlib.sha256((key + "|" + ",".join(self.modules) + "|" + sha256_files(self.extract_specs + [os.path.join(VERIF, "vlib", "extract.py")])).encode()).hexdigest()[:16]
+        self.extracted = []
         self.root = os.path.join(SCRATCH_ROOT, "k" + tag)
         self.src = os.path.join(self.root, "repo")
         self.key = key
@@ -214,10 +221,38 @@ class Scratch:
             p = os.path.join(self.src, "src", srcrel)
             if not os.path.exists(p):
                 raise Undecided(f"lost anchor: source file src/{srcrel} does not exist in the tree")
+            gen_line = ""
+            spec_path = os.path.join(KANI_DIR, m[:-3] + ".extract.json")
+            if os.path.exists(spec_path):
+                # functions nested inside other functions cannot be named from a harness: their text is copied verbatim
+                # from this tree into a generated sibling module (only `pub(crate)` is prepended to the signature)
+                sys.path.insert(0, os.path.join(VERIF, "vlib"))
+                import extract
+                try:
+                    text, meta = extract.build_kani_gen(json.load(open(spec_path)), self.src)
+                except extract.ExtractError as e:
+                    raise Undecided("extraction: " + str(e))
+                gen_path = os.path.join(self.root, "gen_" + m)
+                with open(gen_path, "w") as gf:
+                    gf.write(text)
+                with open(os.path.join(self.root, "gen_" + m + ".meta.json"), "w") as gf:
+                    json.dump(meta, gf)
+                gen_line = '#[cfg(kani)] #[path = "%s"] pub(crate) mod verif_kani_gen;\n' % gen_path
             with open(p, "a") as f:
-                f.write('\n#[cfg(kani)] #[path = "%s"] pub(crate) mod verif_kani;\n' % os.path.join(KANI_DIR, m))
+                f.write('\n' + gen_line + '#[cfg(kani)] #[path = "%s"] pub(crate) mod verif_kani;\n' % os.path.join(KANI_DIR, m))
         with open(stamp, "w") as f:
             f.write(self.key)
+
+    def extraction_meta(self):
+        out = []
+        for m in self.modules:
+            mp = os.path.join(self.root, "gen_" + m + ".meta.json")
+            if os.path.exists(mp):
+                try:
+                    out.append(json.load(open(mp)))
+                except Exception:
+                    pass
+        return out
 
     def release(self):
         try:
@@ -696,7 +731,8 @@ def run_property(prop, tier, seed):
             viol_lines.append(f"VIOLATION property={prop} replay={rp}" + ("" if found_input else " no-failing-input-found"))
 
         # ---- evidence
-        write_evidence(prop, pinfo, tier, seed, obls, canaries, results, violations, known_hits, undecided, key, time.time() - t_start)
+        write_evidence(prop, pinfo, tier, seed, obls, canaries, results, violations, known_hits, undecided, key, time.time() - t_start,
+                       scratch.extraction_meta() if scratch is not None else [])
 
         for o, fc, k in known_hits:
             print(f"KNOWN-FINDING: property={prop} {k.get('what','')} [obligation {o['id']}: {fc.get('description')}]")
@@ -718,7 +754,7 @@ def run_property(prop, tier, seed):
             scratch.release()
 
 
-def write_evidence(prop, pinfo, tier, seed, obls, canaries, results, violations, known_hits, undecided, key, wall):
+def write_evidence(prop, pinfo, tier, seed, obls, canaries, results, violations, known_hits, undecided, key, wall, kani_extractions=()):
     os.makedirs(EVID_DIR, exist_ok=True)
     level = pinfo.get("level", "proof")
     samples, bounded, complete = [], [], []
@@ -768,6 +804,7 @@ def write_evidence(prop, pinfo, tier, seed, obls, canaries, results, violations,
         "tree_key": key,
         "explanation": pinfo.get("explanation", ""),
         "assumption_scan": scan,
+        "kani_extractions": list(kani_extractions),
     }
     ev = {"property_id": prop, "tier": tier, "seed": seed, "level": level, "coverage": cov,
           "assumptions": sorted(assumptions), "wall_s": round(wall, 2), "violations": len(violations)}
